@@ -867,6 +867,17 @@ gen_payload(World *w, Sess *s, int fillmax)
 		} else if (k == 7) {
 			// never terminated: every word has the high bit clear, body included
 			words = (int) W(0, 20);
+			if (W(0, 1)) {
+				// ... or the end bit shows up only in a tail of 1..3 bytes
+				words = (int) W(1, std::max(1, std::min(3, w->ttl - 1)));
+				for (int i = 0; i < words; i++)
+					put_be32(pl, (uint32_t) W(0, 0x7fffffff));
+				size_t tail = (size_t) W(1, 3);
+				for (size_t i = 0; i < tail; i++)
+					pl.push_back((uint8_t) (0x80 | W(0, 0x7f)));
+				s->kinds.push_back("backtrace ends in a partial word");
+				return pl;
+			}
 			for (int i = 0; i < words; i++)
 				put_be32(pl, (uint32_t) W(0, 0x7fffffff));
 			for (auto &c : body)
